@@ -255,6 +255,12 @@ func main() {
 							p := new(dleq.Proof)
 							e := cp()
 							if p.UnmarshalBinary(g, b) == nil {
+								// ristretto255 scalars ignore the three top bits of their encoding: such a flip decodes to the SAME
+								// proof component - another spelling, not an alteration of c or s
+								if rb, _ := p.MarshalBinary(); bytes.Equal(rb, pb) {
+									agg[site].Total++
+									continue
+								}
 								e.Proof = p
 								try(site, fd, e, key.Public(), info)
 							} else {
